@@ -215,12 +215,12 @@ class Parameterized(Unary):
                 cls.validate_type_compatibility(param.data_type)
             else:
                 cls.validate_scalar_type(param)
-        if param is None:
-            cls.return_type = Integer
-        else:
-            cls.return_type = Number
-
-        return super().validate(operand)
+        # The return type depends on this call's parameter. Bind it on a throw-away subclass
+        # instead of on the shared operator class: concurrent validations of the same operator
+        # (e.g. round(x) and round(x, 2) from two threads) would otherwise see each other's value.
+        return_type = Integer if param is None else Number
+        bound = type(cls.__name__, (cls,), {"return_type": return_type})
+        return super(Parameterized, bound).validate(operand)
 
 
 class Round(Parameterized):
